@@ -245,16 +245,20 @@ fn check_decl(spec: &str, obs: &mut Obs) {
     obs.done(true);
 }
 
+/// names for the first user gate: look-alikes of the built-in `U`, of keywords and of library gates
+const USER_GATE_NAMES: &[&str] = &["user_gate", "u", "uu", "Ux", "cU", "u0", "gphase2", "inv2", "gate1", "xx", "π_gate", "_g"];
+
 fn check_gate_sig(np: usize, nq: usize, with_std: bool, obs: &mut Obs) {
     let ps: Vec<String> = (0..np).map(|i| format!("p{i}")).collect();
     let qs: Vec<String> = (0..nq).map(|i| format!("q{i}")).collect();
+    let gname = USER_GATE_NAMES[(np * 7 + nq * 3 + with_std as usize) % USER_GATE_NAMES.len()];
     let mut src = String::new();
     if with_std {
         src.push_str("include \"stdgates.inc\";\n");
     }
     let plist = if np == 0 { String::new() } else { format!("({})", ps.join(", ")) };
-    src.push_str(&format!("gate user_gate{plist} {} {{ }}\n", qs.join(", ")));
-    src.push_str(&format!("gate second{plist} {} {{ user_gate{} {}; }}\n", qs.join(", "), if np == 0 { String::new() } else { format!("({})", ps.join(", ")) }, qs.join(", ")));
+    src.push_str(&format!("gate {gname}{plist} {} {{ }}\n", qs.join(", ")));
+    src.push_str(&format!("gate second{plist} {} {{ {gname}{} {}; }}\n", qs.join(", "), if np == 0 { String::new() } else { format!("({})", ps.join(", ")) }, qs.join(", ")));
     obs.fp.str(&src);
     let res = match analyse_text(&src) {
         Ok(r) => r,
@@ -267,9 +271,9 @@ fn check_gate_sig(np: usize, nq: usize, with_std: bool, obs: &mut Obs) {
     let r = guard(|| {
         let t = res.symbol_table();
         let mut problems: Vec<(String, String)> = Vec::new();
-        match find_symbol(t, "user_gate") {
+        match find_symbol(t, gname) {
             Some(Type::Gate(a, b)) if *a == np && *b == nq => {}
-            other => problems.push(("gate-arity".into(), format!("user_gate: {other:?}, declared ({np}, {nq})"))),
+            other => problems.push(("gate-arity".into(), format!("{gname}: {other:?}, declared ({np}, {nq})"))),
         }
         for p in &ps {
             match find_symbol(t, p) {
@@ -286,7 +290,7 @@ fn check_gate_sig(np: usize, nq: usize, with_std: bool, obs: &mut Obs) {
         // the gate listing: exactly the user-defined and standard-library gates with their arities
         let mut listed: Vec<(String, usize, usize)> = t.gates().map(|(n, _, a, b)| (n.to_string(), a, b)).collect();
         listed.sort();
-        let mut want: Vec<(String, usize, usize)> = vec![("user_gate".into(), np, nq), ("second".into(), np, nq)];
+        let mut want: Vec<(String, usize, usize)> = vec![(gname.to_string(), np, nq), ("second".into(), np, nq)];
         if with_std {
             want.extend(STDGATES.iter().map(|(n, a, b)| (n.to_string(), *a, *b)));
         }
